@@ -285,6 +285,15 @@ class Table:
             args = (c, args[2], args[1]) if flipped else (c, args[1], args[2])
             if isinstance(args[1], RF) and isinstance(args[2], RF) and self.equal(args[1], args[2]):
                 return args[1]
+        if head == 'elem' and len(args) == 2 and isinstance(args[0], RF):
+            # the i-th item of zip(a, b) is (a_i, b_i); of enumerate(a) it is (i, a_i)
+            za = args[0].single_atom()
+            if za is not None and self.atoms[za].head == 'call' and self.atoms[za].extra and not self.atoms[za].extra[1:]:
+                fn = self.atoms[za].extra[0]
+                if fn == 'fn:zip':
+                    return self.atom('tuple', tuple(self.atom('elem', (q, args[1])) for q in self.atoms[za].args))
+                if fn == 'fn:enumerate' and len(self.atoms[za].args) == 1:
+                    return self.atom('tuple', (args[1], self.atom('elem', (self.atoms[za].args[0], args[1]))))
         return RF(self, p_atom(self.intern(head, args, extra, node)))
 
     NEG_CMP = {'IsNot': 'Is', 'NotEq': 'Eq', 'NotIn': 'In'}
